@@ -309,3 +309,47 @@ package parse
 //@   loop * candidate len(b) <= len(old(b)) && ptr(b) == ptr(old(b)) && cap(b) == cap(old(b))
 //@   loop 1 decreases 2*len(b) - i
 //@   loop 2 decreases len(b) - i
+
+// ===================================================================== binary.go (C19)
+// Abstract view of a reader back end: clen(f) bytes, content(f, i) the i-th byte.
+//@ ghost clen(f)
+//@ ghost content(f, i)
+
+// Behavioural contract of IBinaryReader (every implementation in the repository is verified against it;
+// call sites through the interface use it).
+//@ func IBinaryReader.Len
+//@   pure
+//@   ensures[S]  result >= 0
+//@   ensures[F]  result == clen(recv)
+
+//@ func IBinaryReader.Bytes
+//@   requires[S] arg1 >= 0 && arg2 >= 0 && smallInt(arg1) && smallInt(arg2)
+//@   ensures[S]  len(result0) <= arg1
+//@   ensures[S]  arg0 != nil && len(arg0) >= arg1 && result0 != nil ==> sameMem(result0, arg0[0:len(result0)])
+
+// the in-memory back end defines the abstract view as its data slice
+//@ pred bytesView(r) := clen(r) == len(r.data) && forall(i, 0, len(r.data), content(r, i) == r.data[i])
+//@ func binaryReaderBytes.Len
+//@   requires[F] bytesView(r)
+//@ func binaryReaderBytes.Bytes
+//@   requires[S] r != nil && (b == nil || len(b) >= n)
+//@   requires[F] bytesView(r) && (b == nil || disjoint(b, r.data))
+//@   ensures[F,C19] @length: n > 0 ==> len(result0) == min(n, max(0, clen(r) - off))
+//@   ensures[F,C19] @content: forall(i, 0, len(result0), result0[i] == content(r, off + i))
+//@   ensures[F,C19] @eof: n > 0 ==> ((result1 == io.EOF) <==> off + n > clen(r)) && (result1 == nil || result1 == io.EOF)
+//@   ensures[F,C19] @zero: n == 0 ==> result1 == nil && len(result0) == 0
+
+//@ func binaryReaderBytes.Close
+//@   ensures[S] true
+//@ func newBinaryReaderBytes
+//@   ensures[S] result != nil && sameSlice(result.data, data)
+
+//@ pred mmapView(r) := clen(r) == len(r.data) && r.size == len(r.data) && forall(i, 0, len(r.data), content(r, i) == r.data[i])
+//@ func binaryReaderMmap.Len
+//@   requires[F] mmapView(r)
+//@ func binaryReaderMmap.Bytes
+//@   requires[S] r != nil && (b == nil || len(b) >= n)
+//@   requires[F] mmapView(r) && r.data != nil && (b == nil || disjoint(b, r.data))
+//@   ensures[F,C19] @length: n > 0 ==> len(result0) == min(n, max(0, clen(r) - off))
+//@   ensures[F,C19] @content: forall(i, 0, len(result0), result0[i] == content(r, off + i))
+//@   ensures[F,C19] @eof: n > 0 ==> ((result1 == io.EOF) <==> off + n > clen(r)) && (result1 == nil || result1 == io.EOF)
